@@ -171,6 +171,22 @@ def run(repo, rep, tier):
         rep.check('framing', 'DHEat.get_padding: payload length %d -> padding >= 4, minimal, total multiple of 8, as many bytes as announced' % L, ok, gp,
                   'DHEat.get_padding: a payload of %d bytes gets %s' % (L, ('padding length %r with %d padding bytes (total %d)' % (gpv[0], len(gpv[1]), 5 + L + gpv[0])) if ok is False and isinstance(gpv, tuple) and len(gpv) == 2 and isinstance(gpv[0], int) and isinstance(gpv[1], bytes) else repr(gpv)[:80]), stmt='get_padding framing')
     rep.check('framing', 'both packet builders compute the same padding for every length', r_a == r_b, gp, 'padding differs between send_packet and get_padding: %s' % [(x, y) for x, y in zip(r_a, r_b) if x != y][:3], sample={'rule': 'framing', 'padding_by_length': r_a[:8]})
+    # what the packet reader reads next is what the peer sent next: SSH_Socket.recv() interpreted (props/_codec.recv_model) on receive buffers with unread
+    # bytes -- small and large read positions, empty and non-empty tails -- must only APPEND the received segment behind the unread bytes
+    badr = []
+    ncr = 0
+    for buffered_len, pos_ in ((0, 0), (6, 4), (6, 6), (2048, 2040), (40000, 39990), (70000, 69999), (140000, 131072)):
+        buffered_ = bytes((i * 7 + 1) % 251 for i in range(buffered_len))
+        for incoming_ in (b'xyz', bytes(range(200))):
+            r_ = _codec.recv_model(repo, buffered_, pos_, incoming_)
+            rep.evals()
+            ncr += 1
+            want_ = buffered_[pos_:] + incoming_
+            if not isinstance(r_[0], bytes) or r_[0] != want_ or r_[1] != (len(incoming_), None) or r_[2]:
+                badr.append('buffer of %d bytes read up to %d, segment of %d bytes arrives: %s' % (buffered_len, pos_, len(incoming_),
+                            r_[1] if not isinstance(r_[0], bytes) else ('the reader would next see %d byte(s) (%s...), the peer sent %d (%s...)%s' % (len(r_[0]), r_[0][:6].hex(), len(want_), want_[:6].hex(), '; ' + r_[2] if r_[2] else ''))))
+    rep.check('framing', 'SSH_Socket.recv appends the received segment behind the unread bytes and keeps the read position (%d buffer states)' % ncr, not badr, F('ssh_socket', 'SSH_Socket.recv'),
+              'SSH_Socket.recv loses or reorders received bytes -- %s: the packet reader continues in the middle of the stream and no longer reads back the packets that were sent' % (badr[0] if badr else ''), stmt='recv appends')
     # reader: per protocol version the statements of read_packet are linearised and locals substituted forward (props/_framing.reader_model); what is tested
     # against the block size and what is read as payload are linear forms over the values read from the wire -- whatever temporaries or helpers compute them
     from props import _framing as _fr
